@@ -362,3 +362,31 @@ func (p *Program) loopEarlyExits(l *RangeLoop) []*ssa.BasicBlock {
 	}
 	return out
 }
+
+// appendsOnEveryIteration: ph is a slice accumulator of the loop l — on every edge that comes
+// back to the loop header its value is append(ph, <exactly one element>), so no iteration that
+// carries on with the next element skips the append. It returns the values flowing in from
+// outside the loop (the start values).
+func appendsOnEveryIteration(l *RangeLoop, ph *ssa.Phi, oneElem func(ssa.Value) bool) ([]ssa.Value, bool) {
+	if ph.Block() != l.Header {
+		return nil, false
+	}
+	var start []ssa.Value
+	back := 0
+	for k, pr := range l.Header.Preds {
+		e := ph.Edges[k]
+		if !l.blocks()[pr] {
+			start = append(start, e)
+			continue
+		}
+		back++
+		app, isCall := e.(*ssa.Call)
+		if !isCall || !isBuiltin(&app.Call, "append") || app.Call.Args[0] != ssa.Value(ph) || len(app.Call.Args) != 2 {
+			return nil, false
+		}
+		if !oneElem(app.Call.Args[1]) {
+			return nil, false
+		}
+	}
+	return start, back > 0
+}
